@@ -162,6 +162,11 @@ def strat_call(draw, tier, which):
                 "board": st.integers(0, 3)}
     name = draw(st.sampled_from(names))
     values = dict((k, draw(s)) for k, s in sorted(pool.items()))
+    if which == "bmp" and name == "set_led" and draw(st.booleans()):
+        # several boards of one frame, in any order: the command goes to the
+        # first one named
+        values["board"] = draw(st.lists(st.integers(0, 3), min_size=1,
+                                        max_size=3, unique=True))
     styles = dict((k, draw(st.sampled_from(["kw", "ctx", "ctx", "default",
                                             "pos"])))
                   for k in sorted(pool))
@@ -395,8 +400,14 @@ def check_call(case):
                             "address board 0 with the board's bit mask",
                             dict(det, cpu=p, mask=a2))
                 else:
-                    require(p == first, "BMP command sent to another board",
+                    require(p == first, "BMP command sent to another board "
+                            "than the (first) one named",
                             dict(det, got=p, expected=first))
+                    if case["method"] == "set_led":
+                        boards = [board] if isinstance(board, int) else board
+                        require(a2 == sum(1 << b for b in boards), "set_led "
+                                "does not carry the bit mask of the boards "
+                                "named", dict(det, mask=a2))
                 host = "bmp-%d-%d" % (r["cabinet"], r["frame"])
                 tgt = 0 if kind == "power" else first
                 if (r["cabinet"], r["frame"], tgt) == (0, 0, 2):
